@@ -218,7 +218,7 @@ pub fn check_stress(case: &ConcCase, exp: &Expected, trace: &ConcTrace) -> Optio
             )
             .collect();
         return Some(Discrepancy {
-            props: vec!["C10", "C02"],
+            props: vec!["C10", "C02", "C04"],
             at: "multiset of call outcomes".into(),
             expected: "every position of every chain / every ordered slot handed out exactly once".into(),
             observed: format!("{diff:?}"),
@@ -233,7 +233,7 @@ pub fn check_stress(case: &ConcCase, exp: &Expected, trace: &ConcTrace) -> Optio
     counters.sort();
     if counters != exp.counters {
         return Some(Discrepancy {
-            props: vec!["C10"],
+            props: vec!["C10", "C03"],
             at: "match counters after join".into(),
             expected: format!("{:?}", exp.counters),
             observed: format!("{counters:?}"),
@@ -241,7 +241,7 @@ pub fn check_stress(case: &ConcCase, exp: &Expected, trace: &ConcTrace) -> Optio
     }
     if trace.snap.ordered_index != exp.g {
         return Some(Discrepancy {
-            props: vec!["C10"],
+            props: vec!["C10", "C04"],
             at: "global ordered index after join".into(),
             expected: format!("{}", exp.g),
             observed: format!("{}", trace.snap.ordered_index),
@@ -276,7 +276,7 @@ pub fn check_stress(case: &ConcCase, exp: &Expected, trace: &ConcTrace) -> Optio
     };
     if !ok {
         return Some(Discrepancy {
-            props: vec!["C10"],
+            props: vec!["C10", "C03"],
             at: "verification after join".into(),
             expected: format!("{:?} (the verdict of the same calls made sequentially)", exp.verdict),
             observed: format!("{:?}", trace.final_original),
